@@ -56,6 +56,9 @@ pub struct AllOptional {
     // the codec functions named by PATHS (a module path, a `self::` path), not bare identifiers
     #[deb822(field = "Essential", serialize_with = codecs::yesno_to, deserialize_with = self::codecs::yesno_from)]
     essential: Option<bool>,
+    // an identifier with upper-case letters and no `field =`: the default key is the identifier as written
+    #[allow(non_snake_case)]
+    Upper_Case: Option<u32>,
 }
 mod codecs {
     pub fn yesno_to(v: &bool) -> String { if *v { "yes".into() } else { "no".into() } }
@@ -65,13 +68,13 @@ fn extra_shapes<P: Backend>(o: &mut Outcome, feats: &[String]) where AllOptional
     let be = P::NAME;
     let api = format!("{} derive on an all-optional struct", be);
     let values = [AllOptional::default(),
-        AllOptional { r#type: Some("deb".into()), words: Some(vec!["a".into(), "b".into()]), plain: Some(7), r#loop: Some(3), ref_: Some(9), esc: Some("e".into()), raw: Some("r".into()), essential: Some(true) },
-        AllOptional { r#type: None, words: Some(vec!["x".into()]), plain: None, r#loop: Some(0), ref_: None, esc: None, raw: Some("r2".into()), essential: Some(false) }];
+        AllOptional { r#type: Some("deb".into()), words: Some(vec!["a".into(), "b".into()]), plain: Some(7), r#loop: Some(3), ref_: Some(9), esc: Some("e".into()), raw: Some("r".into()), essential: Some(true), Upper_Case: Some(5) },
+        AllOptional { r#type: None, words: Some(vec!["x".into()]), plain: None, r#loop: Some(0), ref_: None, esc: None, raw: Some("r2".into()), essential: Some(false), Upper_Case: None }];
     for x in values.iter() {
         o.evals += 1;
         let r = guarded(&api, || {
             let p = <AllOptional as ToDeb822Paragraph<P>>::to_paragraph(x);
-            let want: Vec<(String, String)> = [x.r#type.clone().map(|v| ("Type".to_string(), v)), x.words.clone().map(|v| ("Words".to_string(), v.join(" "))), x.plain.map(|v| ("plain".to_string(), v.to_string())), x.ref_.map(|v| ("ref_".to_string(), v.to_string())), x.esc.clone().map(|v| ("X-Esc-Key".to_string(), v)), x.raw.clone().map(|v| ("Raw-Key".to_string(), v)), x.essential.map(|v| ("Essential".to_string(), if v { "yes".to_string() } else { "no".to_string() }))].into_iter().flatten().collect();
+            let want: Vec<(String, String)> = [x.r#type.clone().map(|v| ("Type".to_string(), v)), x.words.clone().map(|v| ("Words".to_string(), v.join(" "))), x.plain.map(|v| ("plain".to_string(), v.to_string())), x.ref_.map(|v| ("ref_".to_string(), v.to_string())), x.esc.clone().map(|v| ("X-Esc-Key".to_string(), v)), x.raw.clone().map(|v| ("Raw-Key".to_string(), v)), x.essential.map(|v| ("Essential".to_string(), if v { "yes".to_string() } else { "no".to_string() })), x.Upper_Case.map(|v| ("Upper_Case".to_string(), v.to_string()))].into_iter().flatten().collect();
             let known = |l: Vec<(String, String)>| -> Vec<(String, String)> { l.into_iter().filter(|(k, _)| !k.contains("loop")).collect() };
             if known(p.list()) != want { return Err(format!("to_paragraph gave {:?}, expected {:?}", p.list(), want)); }
             let back = <AllOptional as FromDeb822Paragraph<P>>::from_paragraph(&p).map_err(|e| format!("own paragraph rejected: {}", e))?;
